@@ -6,6 +6,7 @@ package main
 
 import (
 	"context"
+	"errors"
 	"fmt"
 	"sort"
 	"strings"
@@ -139,6 +140,15 @@ func runXRDFilterEdit(c *kit.Ctx, i int) {
 			panic(err)
 		}
 		trace = append(trace, fmt.Sprintf("-- the XRD author sets connectionSecretKeys to %v", f))
+		if r.IntN(3) == 0 {
+			// the engine cannot stop the running XR controller at the first attempt (an informer of one
+			// of its watches cannot be had); the XRD reconciler's retries must get there all the same
+			eng.FailOn["Stop"] = errors.New("injected: cannot stop watches")
+			_, err := defR.Reconcile(ctx, reconcile.Request{NamespacedName: types.NamespacedName{Name: xrdName}})
+			delete(eng.FailOn, "Stop")
+			trace = append(trace, fmt.Sprintf("XRD reconcile while the engine's Stop fails: err=%v controller running=%v", err, eng.IsRunning(ctl)))
+			c.Count("xrd_filter_edit_failed_stops", 1)
+		}
 		settleXRD()
 		// a brand-new XR
 		n := fmt.Sprintf("xr-%d", e)
